@@ -30,8 +30,9 @@ META = {
                   "every interior vertex linked to the border: every interior vertex lies in every half-plane containing "
                   "the border positions). PARTIAL: the fold-free clause is Tutte/Floater's theorem, stated but NOT proved; "
                   "what each run establishes instead, on its generated disks only, is kernel-checked evidence: an exact "
-                  "rational solution of the model's system is verified, mouette's floats agree with it to 1e-9, and all "
-                  "triangles of both have one strict orientation (decided exactly).",
+                  "rational solution of the model's system is verified (proved sound: an accepted certificate IS a solution "
+                  "and its triangles are strictly co-oriented), mouette's floats agree with it to 1e-9, and all triangles of "
+                  "mouette's own output have one strict orientation (decided exactly) - evidence, not proof.",
     "level_note": "Trusted: Coq kernel + vm_compute; the tutte/laplacian/base translator; the correspondence harness "
                   "(generators, driver, exact float->rational conversion, Python's atan2 to relate a circle point to its "
                   "turn fraction); scipy spsolve enters only as 'returns a solution' (its output is checked each run); "
